@@ -1,6 +1,7 @@
 package main
 
 import (
+	"strconv"
 	"fmt"
 	"go/token"
 	"go/types"
@@ -198,6 +199,48 @@ func checkC14(p *Prog, r *Report) {
 				return false
 			}}
 		p.runLockRules(r, ls, mem.Named)
+		// one critical section per operation: a method that decides under one acquisition of the mutex and acts
+		// under a second one (a self-locking helper followed by Lock) is not atomic — two concurrent Creates of
+		// one name can both pass the test
+		r.Rule("R14e", "one critical section per operation: on every returning abstract path of a method of the in-memory filesystem (helpers spliced in) the filesystem's mutex is acquired exactly once", 8)
+		for _, mn := range sortedKeys(mem.Methods) {
+			f := mem.Methods[mn]
+			ips, okp := p.ipaths(f)
+			if !okp {
+				r.Unknown("R14e", mem.Name+"."+mn+" critical sections", f.Pos(), "the abstract paths could not be enumerated")
+				continue
+			}
+			bad, nRet := "", 0
+			touches := false
+			for _, ip := range ips {
+				if ip.Exit != "return" {
+					continue
+				}
+				nRet++
+				k := 0
+				for _, e := range ip.Events {
+					if e.Deferred {
+						continue
+					}
+					switch e.Callee {
+					case "(*sync.Mutex).Lock", "(*sync.RWMutex).Lock", "(*sync.RWMutex).RLock":
+						if len(e.Args) > 0 && strings.Contains(e.Args[0], "."+mem.Mutex) {
+							k++
+						}
+					}
+				}
+				if k > 0 {
+					touches = true
+				}
+				if k > 1 {
+					bad = fmt.Sprintf("the mutex is acquired %d times on the path %s: what was read in the first critical section may be stale in the second", k, ip.Trace)
+				}
+			}
+			if !touches {
+				continue // does not use the shared state (a constructor, a pure helper)
+			}
+			r.Check("R14e", mem.Name+"."+mn+" is one critical section", f.Pos(), bad == "" && nRet > 0, bad)
+		}
 		reg, _ := fc.regionOf(mem)
 		for _, f := range reg {
 			p.lockIdentity(r, "R14a", mem.Name, f)
@@ -252,6 +295,43 @@ func (fc *fsCtx) ruleDirShared(r *Report, dir *fsImpl) {
 				n++
 			}
 		})
+		if !found || n != 1 {
+			// through wrappers: on every returning abstract path (helpers spliced in) exactly one system call,
+			// an openat whose constant flags contain O_CREAT|O_EXCL
+			if ips, okp := p.ipaths(f); okp {
+				oc, _ := unixConst(p, "O_CREAT")
+				ox, _ := unixConst(p, "O_EXCL")
+				okAll, nRet := true, 0
+				for _, ip := range ips {
+					if ip.Exit != "return" {
+						continue
+					}
+					nRet++
+					k := 0
+					for _, e := range ip.Events {
+						if !strings.HasPrefix(e.Callee, "golang.org/x/sys/unix.") {
+							continue
+						}
+						k++
+						nm := strings.TrimPrefix(e.Callee, "golang.org/x/sys/unix.")
+						if nm != "Openat" && nm != "Open" || len(e.Args) < 2 {
+							okAll = false
+							continue
+						}
+						fl, err := strconv.ParseInt(e.Args[len(e.Args)-2], 0, 64)
+						if err != nil || fl&oc == 0 || fl&ox == 0 {
+							okAll = false
+						}
+					}
+					if k != 1 {
+						okAll = false
+					}
+				}
+				if okAll && nRet > 0 {
+					found, n = true, 1
+				}
+			}
+		}
 		r.Check("R14c", dir.Name+".Create single syscall", f.Pos(), found && n == 1,
 			fmt.Sprintf("Create issues %d system calls; existence test and creation must be one atomic openat", n))
 	} else {
